@@ -395,3 +395,40 @@ Proof.
   intros j i Hj Hi. vm_compute in Hj, Hi.
   destruct j as [|[|[|[|j]]]]; try lia; destruct i as [|[|i]]; try lia; vm_compute; reflexivity.
 Qed.
+
+(* ------------------------------------------------------------------------------------------ *)
+(* the normalizer is positive in every component, whatever the plane solver answers (rational instance):
+   the plane branch is only taken when min(w) > 0, the nadir branch replaces every component that is not > 0
+   (objective constant over front and archive: /repo commit 87210a93) by 1.  No division by zero, no NaN. *)
+From Coq Require Import Lqa.
+
+Lemma qlt_true x y : qlt x y = true -> (x < y)%Q.
+Proof.
+  unfold qlt. intros H. apply negb_true_iff in H. apply Qnot_le_lt. intros L.
+  apply Qle_bool_iff in L. congruence.
+Qed.
+
+Lemma fold_tmin_le : forall (w : list Q) acc,
+  (fold_left (tmin Q qlt) w acc <= acc)%Q /\ forall x, In x w -> (fold_left (tmin Q qlt) w acc <= x)%Q.
+Proof.
+  induction w as [|a w IH]; intros acc; simpl; [split; [lra|intros x []]|].
+  destruct (IH (tmin Q qlt acc a)) as [H1 H2]. unfold tmin in *.
+  destruct (qlt a acc) eqn:C.
+  - apply qlt_true in C. split; [lra|]. intros x [<-|Hx]; auto.
+  - unfold qlt in C. apply negb_false_iff in C. apply Qle_bool_iff in C. split; auto.
+    intros x [<-|Hx]; [lra|auto].
+Qed.
+
+Theorem n3_normalizer_positive (maxval eps : Q) (solve : list (list Q) -> option (list Q)) points x :
+  In x (n3_normalizer Q 0%Q 1%Q maxval eps Qplus Qminus Qmult Qdiv qlt solve points) -> (0 < x)%Q.
+Proof.
+  unfold n3_normalizer.
+  assert (NAD : In x (n3_nadir Q 0%Q 1%Q qlt points) -> (0 < x)%Q).
+  { unfold n3_nadir. intros H. apply in_map_iff in H. destruct H as [y [<- _]].
+    destruct (qlt 0 y) eqn:C; [now apply qlt_true in C|lra]. }
+  destruct (solve _) as [w|]; auto.
+  destruct (qlt 0 (fold_left (tmin Q qlt) w maxval)) eqn:C; auto.
+  apply qlt_true in C. intros H. apply in_map_iff in H. destruct H as [y [<- Hy]].
+  destruct (fold_tmin_le w maxval) as [_ LE]. specialize (LE y Hy).
+  unfold Qdiv. rewrite Qmult_1_l. apply Qinv_lt_0_compat. lra.
+Qed.
